@@ -8,6 +8,7 @@
 Code inspired by/based on https://github.com/tomchy/suit-composer.
 """
 from __future__ import annotations
+from collections.abc import Mapping
 from dataclasses import dataclass
 from typing import cast, Any
 import functools
@@ -159,7 +160,7 @@ class SuitObject(PrettyPrintHelperMixin):
         # Ensure that cbor2.loads() will not consume all the available memory
         SuitObject.validate_cbor(cbstr)
         try:
-            return cbor2.loads(cbstr)
+            value = cbor2.loads(cbstr)
         except ImportError as err:
             # Can occur due to possible incompatibilities in packages between virtual environment and system scope
             # (seen on Windows, where cbor2 was installed globally and in virtual environment)
@@ -178,6 +179,34 @@ class SuitObject(PrettyPrintHelperMixin):
             #   d81e84ffffffff -> SystemError
             #   d8234129 -> re.error
             raise ValueError("Cannot deserialize data!")
+        SuitObject.reject_shared_values(value)
+        return value
+
+    @staticmethod
+    def reject_shared_values(value: Any) -> None:
+        """Refuse items decoded from CBOR value sharing (tags 28/29).
+
+        A container that is reachable twice is expanded again wherever it is used (serialisation, messages), so a few
+        bytes of nested shared references cost time and memory exponential in the size of the input.
+        """
+        seen = set()
+        stack = [value]
+        while stack:
+            item = stack.pop()
+            if isinstance(item, cbor2.CBORTag):
+                children = [item.value]
+            elif isinstance(item, (list, tuple, set, frozenset)):
+                children = list(item)
+            elif isinstance(item, Mapping):
+                children = [*item.keys(), *item.values()]
+            else:
+                continue
+            if not children:
+                continue
+            if id(item) in seen:
+                raise ValueError("Shared CBOR values (tags 28/29) are not supported!")
+            seen.add(id(item))
+            stack.extend(children)
 
     @staticmethod
     def serialize_cbor(obj: Any) -> bytes:
